@@ -85,7 +85,12 @@ def _state(logger):
     )
 
 
-def _sequential_outcomes(thread_ops):
+def _preload(logger, n):
+    for k in range(n):
+        logger.write({"message_type": "t:typed", "x": 900 + k}, TYPED._serializer)
+
+
+def _sequential_outcomes(thread_ops, preload=0):
     """All (final state, per-op outcomes) reachable by running whole operations one at a time."""
     flat = [(t, i) for t, ops in enumerate(thread_ops) for i in range(len(ops))]
     results = set()
@@ -94,6 +99,7 @@ def _sequential_outcomes(thread_ops):
         if any(perm.index((t, i)) > perm.index((t, i + 1)) for t, ops in enumerate(thread_ops) for i in range(len(ops) - 1)):
             continue
         lg = MemoryLogger()
+        _preload(lg, preload)
         outs = {}
         for (t, i) in perm:
             fn, _, _ = _make_op(lg, thread_ops[t][i], 10 * (t + 1) + i)
@@ -107,12 +113,20 @@ def body_E1(ctx):
     nthreads = sh.get("threads", 2)
     per = sh.get("ops_per_thread", 1)
     menu = sh.get("menu") or OPS
-    thread_ops = [[menu[ctx.choose(len(menu), "op t%d.%d" % (t, i))] for i in range(per)] for t in range(nthreads)]
+    if sh.get("scripts"):
+        # thread 0: one solver-chosen reader op; thread 1: a fixed write-after-reset script
+        readers = sh["scripts"]["readers"]
+        thread_ops = [[readers[ctx.choose(len(readers), "reader op")]], list(sh["scripts"]["writer"])]
+        nthreads = 2
+    else:
+        thread_ops = [[menu[ctx.choose(len(menu), "op t%d.%d" % (t, i))] for i in range(per)] for t in range(nthreads)]
+    preload = int(sh.get("preload", 0))
     sched = Sched(ctx, watch={OUT_FILE: None}, preemptions=sh.get("P", 3))
     logger = MemoryLogger()
+    _preload(logger, preload)
     logger._lock = SchedLock(sched)
     outs = {}
-    written = []
+    written = [(m, s) for m, s in zip(logger.messages, logger.serializers)]
 
     def mk(t):
         def work():
@@ -145,7 +159,7 @@ def body_E1(ctx):
     ids = [id(m) for m in logger.messages]
     ctx.check(len(ids) == len(set(ids)), "a message was recorded twice")
     got = (_state(logger), tuple(sorted(outs.items())))
-    allowed = _sequential_outcomes(thread_ops)
+    allowed = _sequential_outcomes(thread_ops, preload)
     ctx.check(got in allowed, "outcome %r of ops %r under schedule %s equals no sequential order of the operations (allowed: %r)", got, thread_ops, sched.render(), list(allowed)[:4])
     if sched.switches > nthreads:
         ctx.nontrivial((tuple(map(tuple, thread_ops)), tuple(ctx.trace)))
@@ -228,10 +242,11 @@ def E2() -> bool:
 
 
 def _e1_shards(tier):
+    scripted = {"threads": 2, "P": 2, "preload": 1, "scripts": {"readers": ["validate", "serialize", "flush"], "writer": ["reset", "write-traceback"]}}
     if tier == "quick":
         base = {"threads": 2, "ops_per_thread": 1, "P": 2}
-        return [dict(base, prefix=p) for p in enumerate_prefixes(body_E1, "X", {}, base, 2)]
-    out = []
+        return [dict(base, prefix=p) for p in enumerate_prefixes(body_E1, "X", {}, base, 2)] + [dict(scripted, prefix=p) for p in enumerate_prefixes(body_E1, "X", {}, scripted, 2)]
+    out = [dict(dict(scripted, P=3), prefix=p) for p in enumerate_prefixes(body_E1, "X", {}, dict(scripted, P=3), 3)]
     base = {"threads": 2, "ops_per_thread": 1, "P": 1000}
     out += [dict(base, prefix=p) for p in enumerate_prefixes(body_E1, "X", {}, base, 2)]
     base = {"threads": 3, "ops_per_thread": 1, "P": 2, "menu": ["write-typed", "write-traceback", "validate", "flush", "reset"]}
@@ -258,7 +273,7 @@ OBLIGATIONS = [
         shards=_e1_shards,
         twin=[{"threads": 2, "ops_per_thread": 1, "P": 2, "twin_label": "interleaved"}],
         timeout={"quick": 100, "thorough": 1500},
-        bounds={"quick": "2 threads x 1 operation each from 8 kinds (64 assignments), every schedule with <= 2 preemptions at line granularity in eliot/_output.py", "thorough": "2 threads x 1 op: all schedules (unbounded preemption); 3 threads x 1 op from 5 kinds and 2 threads x 2 ops from 3 kinds with <= 2 preemptions"},
+        bounds={"quick": "2 threads x 1 operation each from 8 kinds (64 assignments), and validate|serialize|flush racing a reset-then-write script on a logger that already holds a message; every schedule with <= 2 preemptions at line granularity in eliot/_output.py", "thorough": "2 threads x 1 op: all schedules (unbounded preemption); 3 threads x 1 op from 5 kinds and 2 threads x 2 ops from 3 kinds with <= 2 preemptions"},
     ),
     Ob(
         "E2",
